@@ -343,7 +343,7 @@ def vault_stage(ctx, rep) -> None:
     """(C) Vault.tla: model checking and step conformance of the real re-authentication machinery."""
     from vf import vault
     cfgs = (['MC_Vault_k1.cfg', 'MC_Vault_k2q.cfg', 'MC_Vault_expq.cfg'] if ctx.quick else
-            ['MC_Vault_k1.cfg', 'MC_Vault_k2.cfg', 'MC_Vault_k2all.cfg', 'MC_Vault_exp.cfg', 'MC_Vault_live.cfg'])
+            ['MC_Vault_k1.cfg', 'MC_Vault_k2.cfg', 'MC_Vault_k2all.cfg', 'MC_Vault_exp.cfg', 'MC_Vault_big.cfg', 'MC_Vault_live.cfg'])
     for cfg in cfgs:
         r = tlc.run('MC_Vault', cfg, timeout=3600)
         rep.add_tlc(cfg[:-4], r)
